@@ -105,7 +105,9 @@ def block(rnd, depth=0, with_tags=False, in_list=False):
         return ("\n\n" if loose else "\n").join(items)
     if k == "quote":
         inner = "\n\n".join(block(rnd, depth + 1, with_tags) for _ in range(rnd.choice((1, 2))))
-        return indent(inner, "> ", "> ").replace("\n\n", "\n>\n")
+        # (every empty line gets the marker: a plain replace of double newlines left the second of two consecutive blank code
+        # lines bare, which ends the quote -- and the code block -- there)
+        return "\n".join(l if l else ">" for l in indent(inner, "> ", "> ").split("\n"))
     if k == "alert":
         return "> [!%s]\n> %s" % (rnd.choice(("NOTE", "TIP", "WARNING")), paragraph(rnd, n=3, breaks=False, hazards=hz))
     if k == "fence":
